@@ -144,6 +144,16 @@ func GenSpec(t *rapid.T) *Spec {
 		s.RtOwnStake = rapid.Bool().Draw(t, "rtOwnStake")
 		s.RtSlash = uint64(rapid.SampledFrom([]int{0, 1, 100, 100}).Draw(t, "rtSlash"))
 		s.RtMaxInMsgs = uint32(rapid.SampledFrom([]int{0, 1, 2, 8}).Draw(t, "rtMaxInMsgs"))
+		if rapid.IntRange(0, 2).Draw(t, "rtLiveness") > 0 {
+			// liveness evaluation of the committee's workers at every epoch transition: suspension from the runtime's
+			// committees, and after enough failures freezing and slashing of the node
+			s.RtMinLivePct = uint8(rapid.SampledFrom([]int{50, 100, 100}).Draw(t, "rtMinLivePct"))
+			s.RtMinLiveEval = uint64(rapid.IntRange(1, 2).Draw(t, "rtMinLiveEval"))
+			s.RtMaxLiveFail = uint8(rapid.SampledFrom([]int{0, 1, 1, 2}).Draw(t, "rtMaxLiveFail"))
+			s.RtMaxMissedPct = uint8(rapid.SampledFrom([]int{0, 0, 50}).Draw(t, "rtMaxMissedPct"))
+			s.RtLiveSlash = uint64(rapid.SampledFrom([]int{0, 1, 100}).Draw(t, "rtLiveSlash"))
+			s.RtLiveFreeze = uint64(rapid.IntRange(0, 2).Draw(t, "rtLiveFreeze"))
+		}
 		if rapid.IntRange(0, 2).Draw(t, "rtForeignOwner") == 0 {
 			// owned by an entity that may lose its nodes and try to deregister
 			s.RtOwner = rapid.IntRange(1, s.NEntities-1).Draw(t, "rtOwner")
@@ -178,53 +188,7 @@ func GenSpec(t *rapid.T) *Spec {
 		}
 	}
 	if s.WithRuntime && rapid.IntRange(0, 2).Draw(t, "rtElectable") > 0 {
-		// two thirds of the runtimes can actually get a committee: sizes and constraints fitted to the compute nodes that
-		// exist (a runtime without a committee is suspended, and everything addressed to it is refused early)
-		if s.NodeRoles[0][0]&2 == 0 {
-			s.NodeRoles[0][0] |= 2
-		}
-		if s.RtUpgradeAt > 0 {
-			s.NodeRtVer[0][0] = 3
-		}
-		// candidate pool (after the per-entity cap) before and after the upgrade: the smaller one counts
-		poolFor := func(bit int) int {
-			pool := 0
-			for i, rs := range s.NodeRoles {
-				c, validates := 0, false
-				for j, r := range rs {
-					if r&2 != 0 && (s.RtUpgradeAt == 0 || s.NodeRtVer[i][j]&bit != 0) {
-						c++
-					}
-					validates = validates || r&1 != 0
-				}
-				if s.RtValidatorSet && !validates {
-					continue // the runtime only takes nodes of entities in the validator set
-				}
-				if s.RtMaxNodes > 0 && c > int(s.RtMaxNodes) {
-					c = int(s.RtMaxNodes)
-				}
-				pool += c
-			}
-			return pool
-		}
-		pool := poolFor(1)
-		if p2 := poolFor(2); s.RtUpgradeAt > 0 && p2 < pool {
-			pool = p2
-		}
-		if int(s.RtGroup) > pool {
-			s.RtGroup = uint16(pool)
-		}
-		if int(s.RtBackup) > pool {
-			s.RtBackup = uint16(pool)
-		}
-		for _, g := range []uint16{s.RtGroup, s.RtBackup} {
-			if int(g+s.RtMinPoolExtra) > pool {
-				s.RtMinPoolExtra = 0
-			}
-		}
-		if s.RtStragglers >= s.RtGroup {
-			s.RtStragglers = 0
-		}
+		s.FitRuntime()
 	}
 	if split && s.EpochInterval < 3 {
 		s.EpochInterval = 3
@@ -271,4 +235,68 @@ func DefaultSpec() *Spec {
 		RewardScale: 1000, RewardProposed: 1, RewardSigned: 1, SlashAmount: 100, SlashFreeze: 1, GasOp: 10, MaxTxSize: 32768,
 		GovVotingPeriod: 2, GovStakeThresh: 90, GovMinDeposit: 10,
 	}
+}
+
+// FitRuntime makes the runtime electable: committee sizes and constraints are fitted to the compute nodes that exist
+// (a runtime without a committee is suspended, and everything addressed to it is refused early).
+func (s *Spec) FitRuntime() {
+	// two thirds of the runtimes can actually get a committee: sizes and constraints fitted to the compute nodes that
+	// exist (a runtime without a committee is suspended, and everything addressed to it is refused early)
+	if s.NodeRoles[0][0]&2 == 0 {
+		s.NodeRoles[0][0] |= 2
+	}
+	if s.RtUpgradeAt > 0 {
+		s.NodeRtVer[0][0] = 3
+	}
+	// candidate pool (after the per-entity cap) before and after the upgrade: the smaller one counts
+	poolFor := func(bit int) int {
+		pool := 0
+		for i, rs := range s.NodeRoles {
+			c, validates := 0, false
+			for j, r := range rs {
+				if r&2 != 0 && (s.RtUpgradeAt == 0 || s.NodeRtVer[i][j]&bit != 0) {
+					c++
+				}
+				validates = validates || r&1 != 0
+			}
+			if s.RtValidatorSet && !validates {
+				continue // the runtime only takes nodes of entities in the validator set
+			}
+			if s.RtMaxNodes > 0 && c > int(s.RtMaxNodes) {
+				c = int(s.RtMaxNodes)
+			}
+			pool += c
+		}
+		return pool
+	}
+	pool := poolFor(1)
+	if p2 := poolFor(2); s.RtUpgradeAt > 0 && p2 < pool {
+		pool = p2
+	}
+	if int(s.RtGroup) > pool {
+		s.RtGroup = uint16(pool)
+	}
+	if int(s.RtBackup) > pool {
+		s.RtBackup = uint16(pool)
+	}
+	for _, g := range []uint16{s.RtGroup, s.RtBackup} {
+		if int(g+s.RtMinPoolExtra) > pool {
+			s.RtMinPoolExtra = 0
+		}
+	}
+	if s.RtStragglers >= s.RtGroup {
+		s.RtStragglers = 0
+	}
+}
+
+// AllCompute gives every node the compute role (checks that need committees with several workers) and asks for a primary
+// group of the given size; FitRuntime then cuts it to what the constraints allow.
+func (s *Spec) AllCompute(group, backup uint16) {
+	for i := range s.NodeRoles {
+		for j := range s.NodeRoles[i] {
+			s.NodeRoles[i][j] |= 2
+		}
+	}
+	s.RtGroup, s.RtBackup = group, backup
+	s.FitRuntime()
 }
